@@ -26,7 +26,7 @@ REPO = os.environ.get("VERIF_REPO", "/repo")
 SCRATCH_ROOT = os.environ.get("VERIF_SCRATCH", "/var/tmp/verif-scratch")
 CACHE_ROOT = os.environ.get("VERIF_CACHE", "/var/tmp/verif-cache")
 JOBS = int(os.environ.get("VERIF_JOBS", "8"))
-MEM_GB = int(os.environ.get("VERIF_MEM_GB", "14"))
+MEM_GB = int(os.environ.get("VERIF_MEM_GB", "32"))
 
 sys.path.insert(0, os.path.join(VERIF, "lib"))
 from props import PROPS  # noqa: E402
@@ -46,6 +46,7 @@ class Scratch:
         os.makedirs(SCRATCH_ROOT, exist_ok=True)
         os.makedirs(CACHE_ROOT, exist_ok=True)
         # fixed path per property so that cargo's dependency cache is reused; serialised by flock
+        tag = tag + os.environ.get("VERIF_SCRATCH_TAG", "")
         self.lockf = open(os.path.join(SCRATCH_ROOT, f".lock-{pid}{tag}"), "w")
         try:
             fcntl.flock(self.lockf, fcntl.LOCK_EX | fcntl.LOCK_NB)
@@ -87,6 +88,8 @@ parking_lot = {{ path = "{v}/shims/parking_lot" }}
 
 def overlay_kani(sc, spec):
     """Overlay the environment models and the harness modules on the scratch copy."""
+    for fn in ("Cargo.toml", "Cargo.lock"):
+        shutil.copy(os.path.join(sc.sr, fn), os.path.join(sc.dir, fn + ".pristine"))
     with open(os.path.join(sc.sr, "Cargo.toml"), "a") as f:
         f.write(PATCH_SECTION.format(v=VERIF))
         for extra in spec.get("extra_patches", []):
@@ -103,8 +106,23 @@ def overlay_kani(sc, spec):
             f.write(f"pub mod {m};\n")
     with open(os.path.join(sc.sr, "src", "lib.rs"), "a") as f:
         f.write("\n#[cfg(kani)]\nmod verif_harness;\n")
+    # pristine copies of every file a transform touches, for native replay on the real sources
+    for tr in spec.get("transforms", []):
+        pr = os.path.join(sc.dir, "pristine", tr["file"])
+        if not os.path.exists(pr):
+            os.makedirs(os.path.dirname(pr), exist_ok=True)
+            shutil.copy(os.path.join(sc.sr, tr["file"]), pr)
     for tr in spec.get("transforms", []):
         apply_transform(sc, tr)
+    uses_models = any(tr["repl"].startswith("crate::verif_models") for tr in spec.get("transforms", []))
+    shutil.copy(os.path.join(VERIF, "models", "collections.rs"), os.path.join(sc.sr, "src", "verif_models.rs"))
+    with open(os.path.join(sc.sr, "src", "lib.rs"), "a") as f:
+        f.write("\n#[allow(dead_code)]\nmod verif_models;\n")
+    # the harnesses name containers through verif_harness::coll, which is the models here and
+    # std::collections in the pristine tree used for native replay
+    shutil.copy(os.path.join(VERIF, "harness", "kani", "coll_models.rs" if uses_models else "coll_std.rs"), os.path.join(hdir, "coll.rs"))
+    with open(os.path.join(hdir, "mod.rs"), "a") as f:
+        f.write("pub mod coll;\n")
 
 
 def apply_transform(sc, tr):
@@ -165,7 +183,7 @@ def cargo_env(sc):
 
 
 CHECK_RE = re.compile(
-    r"^Check (\d+): (\S+)\n\s+- Status: (\w+)\n\s+- Description: \"(.*)\"\n\s+- Location: (.*)$", re.M
+    r"^Check (\d+): (.+)\n\s+- Status: (\w+)\n\s+- Description: \"(.*)\"\n\s+- Location: (.*)$", re.M
 )
 
 
@@ -184,14 +202,14 @@ def parse_kani(out):
     return checks, res, t
 
 
-def run_kani(sc, h, timeout, extra_args=()):
+def run_kani(sc, h, timeout, extra_args=(), limit=True):
     full = f"verif_harness::{h['mod']}::{h['name']}"
     cmd = ["cargo", "kani", "-Z", "stubbing", "--harness", full, "--exact", *extra_args]
     t0 = time.time()
     try:
         p = subprocess.run(
             cmd, cwd=sc.sr, env=cargo_env(sc), stdout=subprocess.PIPE, stderr=subprocess.STDOUT,
-            timeout=timeout, preexec_fn=limit_mem, text=True, errors="replace",
+            timeout=timeout, preexec_fn=limit_mem if limit else None, text=True, errors="replace",
         )
         out, rc, timed_out = p.stdout, p.returncode, False
     except subprocess.TimeoutExpired as e:
@@ -283,7 +301,7 @@ TEST_RE = re.compile(r"```\s*\n(/// Test generated for harness.*?)```", re.S)
 def playback(sc, h, pid, timeout):
     """Ask Kani for concrete values of the failing harness, inject the generated unit test into
     the scratch copy and execute it natively. Returns (reproduced: bool|None, path, log)."""
-    out, rc, to, _ = run_kani(sc, h, timeout, ("-Z", "concrete-playback", "--concrete-playback=print"))
+    out, rc, to, _ = run_kani(sc, h, timeout, ("-Z", "concrete-playback", "--concrete-playback=print"), limit=False)
     tests = TEST_RE.findall(out)
     if not tests:
         m = re.search(r"(#\[test\]\s*fn kani_concrete_playback_\w+\(\).*?\n}\n)", out, re.S)
@@ -291,7 +309,7 @@ def playback(sc, h, pid, timeout):
             tests = [m.group(1)]
     if not tests:
         return None, None, "no concrete playback test produced\n" + out[-2000:]
-    rdir = os.path.join(VERIF, "replays", pid)
+    rdir = os.path.join(os.environ.get("VERIF_REPLAY_DIR", os.path.join(VERIF, "replays")), pid)
     os.makedirs(rdir, exist_ok=True)
     path = os.path.join(rdir, f"{h['name']}.rs")
     body = "\n".join(tests)
@@ -306,9 +324,26 @@ def run_playback(sc, mod, body, timeout):
     hp = os.path.join(sc.sr, "src", "verif_harness", mod + ".rs")
     orig = open(hp).read()
     names = re.findall(r"fn (kani_concrete_playback_\w+)", body)
+    saved = {}
     try:
         with open(hp, "a") as f:
             f.write("\n" + body + "\n")
+        # native replay runs against the REAL dependencies: drop the [patch] section (models)
+        for fn in ("Cargo.toml", "Cargo.lock"):
+            saved[fn] = open(os.path.join(sc.sr, fn)).read()
+            shutil.copy(os.path.join(sc.dir, fn + ".pristine"), os.path.join(sc.sr, fn))
+        with open(os.path.join(sc.sr, "Cargo.toml"), "a") as f:
+            f.write('\n[lints.rust]\nunexpected_cfgs = "allow"\nunused = "allow"\n')
+        # ... and the REAL sources and std containers: undo every source transform
+        pdir = os.path.join(sc.dir, "pristine")
+        for root, _, files in os.walk(pdir):
+            for fn in files:
+                rel = os.path.relpath(os.path.join(root, fn), pdir)
+                saved[rel] = open(os.path.join(sc.sr, rel)).read()
+                shutil.copy(os.path.join(root, fn), os.path.join(sc.sr, rel))
+        cp = os.path.join(sc.sr, "src", "verif_harness", "coll.rs")
+        saved["src/verif_harness/coll.rs"] = open(cp).read()
+        shutil.copy(os.path.join(VERIF, "harness", "kani", "coll_std.rs"), cp)
         env = cargo_env(sc)
         env.pop("CARGO_TARGET_DIR", None)  # playback rejects --target-dir; keep its output inside the scratch copy
         reproduced = False
@@ -326,6 +361,8 @@ def run_playback(sc, mod, body, timeout):
         return reproduced, lg
     finally:
         open(hp, "w").write(orig)
+        for fn, txt in saved.items():
+            open(os.path.join(sc.sr, fn), "w").write(txt)
 
 
 # ------------------------------------------------------------------------------------------------
@@ -366,6 +403,9 @@ def run_kani_property(pid, tier, seed, replay=None):
             print("REPLAY:", "violation reproduced" if ok else ("not reproduced" if ok is False else "inconclusive"))
             return 1 if ok else (0 if ok is False else 2)
         hs = discover(spec, tier)
+        only = os.environ.get("VERIF_ONLY")  # debugging aid: restrict to harnesses matching a regex
+        if only:
+            hs = [h for h in hs if re.search(only, h["name"])]
         timeout = spec.get("timeout", {}).get(tier, 300 if tier == "quick" else 1500)
         # warm the dependency cache with a codegen-only build so parallel runs do not all block
         h0 = hs[0]
@@ -384,7 +424,7 @@ def run_kani_property(pid, tier, seed, replay=None):
             r["doc"] = h["doc"]
             if r["verdict"] in ("inconclusive",):
                 os.makedirs(os.path.join(VERIF, "logs"), exist_ok=True)
-                open(os.path.join(VERIF, "logs", f"{pid}-{h['name']}.log"), "w").write(out[-200000:])
+                open(os.path.join(VERIF, "logs", f"{pid}-{h['name']}.log"), "w").write(out[:100000] + "\n...\n" + out[-300000:])
             log(f"[{pid}] {h['name']}: {r['verdict']} ({wall:.0f}s, {r['checks']} checks)")
             return h, r
 
@@ -403,7 +443,7 @@ def run_kani_property(pid, tier, seed, replay=None):
                     else:
                         unknown.append(f)
                 if unknown:
-                    ok, path, lg = playback(sc, h, pid, timeout)
+                    ok, path, lg = playback(sc, h, pid, max(4 * timeout, 1800))  # trace extraction is several times slower than the plain verdict
                     r["replay"] = {"reproduced": ok, "path": path}
                     if ok:
                         violations.append((h, r, path, unknown))
@@ -489,8 +529,9 @@ def write_evidence_kani(pid, tier, seed, spec, results, violations, inconcl, kno
         "wall_s": round(wall, 1),
         "violations": len(violations),
     }
-    os.makedirs(os.path.join(VERIF, "evidence"), exist_ok=True)
-    with open(os.path.join(VERIF, "evidence", f"{pid}.json"), "w") as f:
+    evdir = os.environ.get("VERIF_EVIDENCE_DIR", os.path.join(VERIF, "evidence"))
+    os.makedirs(evdir, exist_ok=True)
+    with open(os.path.join(evdir, f"{pid}.json"), "w") as f:
         json.dump(ev, f, indent=1)
 
 
